@@ -268,6 +268,9 @@ def _placeholder_attrs(pm, cls: ClassInfo) -> set[str]:
             for n in walk_no_nested(m.node):
                 if isinstance(n, ast.Assign) and len(n.targets) == 1 and is_self_attr(n.targets[0]):
                     v = n.value
+                    # ... or a copy of it: deepcopy(<param>.a) / copy(<param>.a)
+                    if isinstance(v, ast.Call) and (dotted(v.func) or "").split(".")[-1] in ("deepcopy", "copy") and len(v.args) == 1:
+                        v = v.args[0]
                     if isinstance(v, ast.Attribute) and isinstance(v.value, ast.Name) and v.value.id in m.params and v.attr == n.targets[0].attr:
                         out.add(v.attr)
     return out
